@@ -7,6 +7,8 @@ namespace Scryer.Loader
 
 /-! ## foreign / ownCls -/
 
+@[simp] theorem foreign_nil (src : Src) : foreign src [] = [] := rfl
+
 theorem foreign_append (src : Src) (a b : List Cl) :
     foreign src (a ++ b) = foreign src a ++ foreign src b := by
   simp [foreign]
@@ -307,5 +309,48 @@ theorem declsFold_eq (src : Src) (D : List Fl) (p : Pred) :
     | mk ext dyn disc multi defined tracked cls =>
     cases f <;> cases tracked <;> by_cases hD : Fl.disc ∈ D <;>
       simp [stepK, Pred.setFl, hD, foreign_idem, Bool.or_assoc, Bool.or_comm, Bool.or_left_comm]
+
+theorem specKey_eq (fm : Bool) (src : Src) (inS : Bool) (evs : List KEv) (p : Pred) :
+    specKey fm src inS evs p =
+      closed src (declsFold src (declsOf evs) (if fm then wipeK src inS p else p)) (groupsOf evs) := rfl
+
+/-- after the wipe of a file load no tracked clause of the file is left. -/
+theorem wipeK_idem (src : Src) (inS : Bool) (p : Pred) :
+    wipeK src inS (wipeK src inS p) = wipeK src inS p := by
+  cases p with
+  | mk ext dyn disc multi defined tracked cls =>
+  cases ext <;> cases tracked <;> cases inS <;> simp [wipeK, foreign_idem]
+
+theorem wipeK_clean (src : Src) (inS : Bool) (p : Pred) (h : p.wf2) :
+    (wipeK src inS p).tracked = true →
+      foreign src (wipeK src inS p).cls = (wipeK src inS p).cls := by
+  obtain ⟨⟨h1, _, _⟩, _⟩ := h
+  cases p with
+  | mk ext dyn disc multi defined tracked cls =>
+  simp only at h1
+  cases ext <;> cases tracked <;> cases inS <;> simp_all [wipeK, foreign_idem]
+
+/-- second file load of the same (canonical) text on the result of the first, closed forms. -/
+theorem spec_idem_file (src : Src) (inS : Bool) (D : List Fl) (gs : List (List Nat)) (q : Pred)
+    (hw : q.wf2) (hclean : q.tracked = true → foreign src q.cls = q.cls)
+    (hfix : wipeK src inS q = q) :
+    closed src (declsFold src D
+        (wipeK src (if gs.isEmpty then inS else true) (closed src (declsFold src D q) gs))) gs
+      = closed src (declsFold src D q) gs := by
+  obtain ⟨⟨h1, h2, h3⟩, h4⟩ := hw
+  cases q with
+  | mk ext dyn disc multi defined tracked cls =>
+  simp only at h1 h2 h3 h4 hclean
+  rcases List.eq_nil_or_concat gs with rfl | ⟨init, last, rfl⟩
+  · simp only [closed_nil, List.isEmpty_nil, if_true, declsFold_eq]
+    by_cases hd : Fl.disc ∈ D <;> by_cases hD : D = [] <;>
+      cases ext <;> cases tracked <;> cases inS <;>
+      simp_all [wipeK, foreign_idem]
+  · simp only [List.concat_eq_append, closed_snoc, declsFold_eq]
+    have hne : (init ++ [last]).isEmpty = false := by simp
+    simp only [hne, Bool.false_eq_true, if_false]
+    by_cases hd : Fl.disc ∈ D <;> by_cases hm : Fl.multi ∈ D <;> by_cases hD : D = [] <;>
+      cases ext <;> cases tracked <;> cases disc <;> cases multi <;>
+      simp_all [wipeK, foreign_idem, foreign_append, foreign_ownCls]
 
 end Scryer.Loader
